@@ -98,7 +98,27 @@ MaxNest(toks, cur, best) ==
   ELSE LET c == CASE Head(toks).k = "stag" -> cur + 1 [] Head(toks).k = "etag" -> cur - 1 [] OTHER -> cur
        IN MaxNest(Tail(toks), c, IF c > best THEN c ELSE best)
 NestingLimit == 128
-TooDeep(e) == MaxNest(e.toks, 0, 0) > NestingLimit
+\* ... and so are general-entity references nested deeper than 128 (a reference to an entity whose replacement text
+\* refers to an entity whose ...: info check_entity_reference, introduced by the repair of the stack overflow on long
+\* entity chains).  The depth of a reference is the number of entities on the longest chain it starts; the FIRST
+\* declaration of a name binds; `fuel` bounds the walk (declarations that are never referenced may be cyclic).
+EntDeclIdx(toks, n) == { i \in 1..Len(toks) : toks[i].k = "entity" /\ toks[i].n = n }
+RECURSIVE EntDepth(_, _, _)
+RefsDepth(toks, items, fuel) ==
+  LET ds == { EntDepth(toks, items[j].n, fuel) : j \in { j \in 1..Len(items) : items[j].t = "e" } }
+  IN  IF ds = {} THEN 0 ELSE CHOOSE d \in ds : \A x \in ds : x <= d
+EntDepth(toks, n, fuel) ==
+  LET ix == EntDeclIdx(toks, n) IN
+  IF fuel = 0 \/ ix = {} THEN 1
+  ELSE LET i == CHOOSE i \in ix : \A j \in ix : i <= j
+       IN  IF "v" \in DOMAIN toks[i] THEN 1 + RefsDepth(toks, toks[i].v, fuel - 1) ELSE 1
+MaxEntDepth(toks) ==
+  LET fuel == Cardinality({ i \in 1..Len(toks) : toks[i].k = "entity" }) + 1
+      ds == { RefsDepth(toks, toks[i].items, fuel) : i \in { i \in 1..Len(toks) : toks[i].k = "text" } }
+            \cup UNION { { RefsDepth(toks, toks[i].attrs[a].v, fuel) : a \in 1..Len(toks[i].attrs) } :
+                          i \in { i \in 1..Len(toks) : toks[i].k = "stag" } }
+  IN  IF ds = {} THEN 0 ELSE CHOOSE d \in ds : \A x \in ds : x <= d
+TooDeep(e) == MaxNest(e.toks, 0, 0) > NestingLimit \/ MaxEntDepth(e.toks) > NestingLimit
 
 \* as-is models compose: S is a set of open findings that all apply to the document
 AsIsTreeC01(S, e) ==
